@@ -87,8 +87,23 @@ fn add_remote_lockouts(rng: &mut Rng, net: &mut GenNet, min_separation: f64) {
 }
 
 pub fn instance(rng: &mut Rng, max_trains: usize) -> Option<Instance> {
+    instance_family(rng, max_trains, false)
+}
+
+/// `congested`: a long corridor of short segments whose few passing sidings are shorter than the trains, with
+/// four or more long trains in alternating directions leaving within minutes of each other. Trains that have
+/// been fixed into the corridor from both ends cannot pass each other: the family in which `run_dispatch` is
+/// expected to give up with its "got stuck" error (the error branch of C05) or to serialise the trains.
+pub fn instance_family(rng: &mut Rng, max_trains: usize, congested: bool) -> Option<Instance> {
     for _ in 0..30 {
-        let o = disp_net_opts(rng);
+        let mut o = disp_net_opts(rng);
+        if congested {
+            o.gaps = (28, 45);
+            o.len = (400.0, 1500.0);
+            o.p_double = *rng.pick(&[0.05, 0.1, 0.2]);
+            o.p_double_ends = *rng.pick(&[0.0, 0.25, 1.0]);
+            o.p_lockout = 0.0;
+        }
         let mut net = gn::network(rng, &o);
         let want_remote_lockouts = rng.chance(0.25);
         if gn::validate(&net.links).is_err() {
@@ -104,7 +119,7 @@ pub fn instance(rng: &mut Rng, max_trains: usize) -> Option<Instance> {
         let first_len = net.gaps[0].iter().chain(net.gaps[net.gaps.len() - 1].iter()).map(|l| net.links[*l as usize].length.value).fold(f64::INFINITY, f64::min);
         let specs: Vec<TrainSpec> = (0..nspecs)
             .map(|_| {
-                let max_len = if rng.chance(0.7) { (first_len * 0.9).min(2500.0) } else { 2500.0 };
+                let max_len = if congested { 2500.0 } else if rng.chance(0.7) { (first_len * 0.9).min(2500.0) } else { 2500.0 };
                 gt::train(rng, &net.train_types, max_len.max(120.0), o.grade_max)
             })
             .collect();
@@ -119,16 +134,16 @@ pub fn instance(rng: &mut Rng, max_trains: usize) -> Option<Instance> {
                 continue;
             }
         }
-        let ntrains = rng.usize(1, max_trains);
+        let ntrains = if congested { rng.usize(4.min(max_trains), max_trains.max(4)) } else { rng.usize(1, max_trains) };
         let same_depart = rng.chance(0.3);
-        let both_dirs = rng.chance(0.8);
+        let both_dirs = congested || rng.chance(0.8);
         // departure spread: from everything at once to three hours apart
-        let spread = *rng.pick(&[600.0, 1800.0, 3.0 * 3600.0]);
+        let spread = if congested { *rng.pick(&[120.0, 600.0, 1800.0]) } else { *rng.pick(&[600.0, 1800.0, 3.0 * 3600.0]) };
         let mut trains = vec![];
         let links = net.links.clone();
         for k in 0..ntrains {
             let spec_idx = rng.usize(0, nspecs - 1);
-            let reverse = both_dirs && rng.chance(0.5);
+            let reverse = if congested && rng.chance(0.7) { k % 2 == 1 } else { both_dirs && rng.chance(0.5) };
             let depart = if same_depart { 0.0 } else { (rng.range(0.0, spread)).round() };
             let (o_id, d_id) = if reverse { ("Br", "Ar") } else { ("A", "B") };
             let init = InitTrainState::new(Some(uc::S * depart), None, None);
